@@ -13,11 +13,16 @@ package c11
 //     reload (applied: the new table; rejected because a restart is required: the old table) — reload_test.go;
 //   - what the authorizer saw just before: nothing, or an authorised request to the same endpoint — primer_test.go;
 //     rows whose failure needs the rows before them are reported with that trail — trail_test.go.
+//   - what a token source HOLDS: no usable token ("", blanks, a newline) or a token wrapped in blanks, at boot and as a
+//     reload step, on every kind of list — content_test.go;
+//   - a reload that is refused because it needs a restart while the same edit renames routes / edits lists —
+//     restart_test.go.
 // Overlapping requests on one authorizer are the free-running -race pass in race_test.go.
 
 import (
 	"encoding/base64"
 	"encoding/json"
+	"errors"
 	"fmt"
 	"net/http"
 	"os"
@@ -208,6 +213,9 @@ func credentials(c cfgSpec, base []string, grpc bool, thorough bool) []cred {
 	add("empty-value", "")
 	add("scheme-only", "Bearer")
 	add("scheme-blank", "Bearer ")
+	if c.Chain != nil && c.Chain.contentWorld() { // content_test.go
+		out = append(out, blankCredentials(grpc)...)
+	}
 	if len(base) == 0 {
 		base = []string{al.G1}
 	}
@@ -489,6 +497,7 @@ func refHTTP(cs caseSpec, req *http.Request, delivered []string) refInfo {
 		ri.Verdict = vOpen
 	}
 	ri.unresolved(c)
+	ri.soften(c, delivered)
 	return ri
 }
 
@@ -502,6 +511,7 @@ func refGRPC(cs caseSpec) refInfo {
 	ri.Strict = ri.Exists && canonical
 	ri.Verdict = judge(cs.Creds, ri.Allow)
 	ri.unresolved(c)
+	ri.soften(c, cs.Creds)
 	return ri
 }
 
@@ -687,6 +697,9 @@ func (k *checker) judgeCase(w *world, cs caseSpec) (refInfo, bool) {
 	if ri.Scope == "admin" && len(ri.Allow) == 0 && !ri.DenyAll {
 		vname = "admin-unconfigured"
 	}
+	if ri.DenyAll {
+		r.Add("ref_deny_because_every_declared_member_lacks_a_usable_value", 1)
+	}
 	switch vname {
 	case "allow":
 		r.Add("ref_allow", 1)
@@ -835,6 +848,14 @@ func (k *checker) runConfig(spec cfgSpec, slot int) {
 		r.Add("primers_refused", int64(w.primersRefused))
 	}()
 	if err := w.fresh(); err != nil {
+		if ch := spec.Chain; ch != nil && errors.Is(err, errBootRefused) {
+			// content_test.go: the tree refuses to start with a token that has no usable value — nothing is in force,
+			// nothing to judge
+			r.Add("content_boots_refused_no_usable_token", 1)
+			r.Add("evaluations", 1)
+			r.Distinct(fmt.Sprintf("boot-refused|%s|%s|%s|alt=%v", ch.Kind, ch.Bad, ch.Focus, ch.Alt))
+			return
+		}
 		r.Infra("%v", err)
 		return
 	}
@@ -855,6 +876,14 @@ func (k *checker) runConfig(spec cfgSpec, slot int) {
 		}
 	}
 	k.countChain(spec)
+	if ch := spec.Chain; ch != nil && ch.contentWorld() {
+		if _, resolvable := ch.load(ch.start()); !resolvable {
+			r.Add("content_boots_accepted_with_a_member_without_usable_value", 1)
+		}
+		if len(spec.Soft) > 0 {
+			r.Add("content_worlds_with_padded_token_in_force", 1)
+		}
+	}
 	eff := spec.inForce() // lists, deployment and prefixes the rows are built from
 	pp, ap := eff.pullPrefix(), eff.adminPrefix()
 
@@ -927,7 +956,7 @@ func (k *checker) runConfig(spec cfgSpec, slot int) {
 		adminMethods = append(adminMethods, "PATCH", "HEAD")
 	}
 	var adminCreds []cred
-	if len(eff.Admin) > 0 {
+	if len(eff.Admin) > 0 || member("admin", eff.Declared) {
 		adminCreds = credentials(spec, eff.Admin, false, thorough)
 	} else {
 		al := alphabetOf(spec)
@@ -1037,6 +1066,10 @@ func TestCheck(t *testing.T) {
 	k.compileTable(append(append([]cfgSpec{}, behav...), compileOnlyConfigs(r)...))
 	// reload chains over file:/env: token sources, failed reloads included, see chain_test.go
 	behav = append(behav, chainSpecs(r)...)
+	// the content of a token source: no usable token / a token wrapped in blanks, see content_test.go
+	behav = append(behav, contentSpecs(r)...)
+	// reloads refused because they need a restart, combined with route and token edits, see restart_test.go
+	behav = append(behav, restartSpecs(r)...)
 
 	// 2. behavioural table on every configuration the compiler must accept
 	var bootable []cfgSpec
@@ -1052,14 +1085,27 @@ func TestCheck(t *testing.T) {
 	// proportion, so that a wall budget that ends the run early cuts the tail of every family, not one family
 	family := func(s cfgSpec) int {
 		switch {
+		case s.Chain != nil && s.Chain.contentWorld():
+			switch {
+			case s.Chain.Pad != "":
+				return 5
+			case len(s.Chain.Ops) == 0:
+				return 3
+			}
+			return 4
 		case s.Chain != nil:
 			return 2
+		case restartWorld(s):
+			if s.Restart == "" && s.Rename == "" {
+				return 7 // the other-deployment pairs of reload_test.go
+			}
+			return 6
 		case s.From != nil:
 			return 1
 		}
 		return 0
 	}
-	var size, idx [3]int
+	var size, idx [8]int
 	for _, s := range bootable {
 		size[family(s)]++
 	}
@@ -1106,7 +1152,7 @@ func TestCheck(t *testing.T) {
 		r.NotExhaustive(fmt.Sprintf("%d reloads of a reload chain were refused by the tree although every referenced token source could be resolved; the table was judged against what stayed in force", n))
 	}
 	if !k.stopped {
-		for _, c := range []string{"reloads_applied", "reloads_rejected_restart_required", "primers_passed",
+		for _, c := range []string{"reloads_applied", "reloads_rejected_restart_required", "primers_passed", "content_worlds", "reload_pairs_restart_only_setting_plus_edit",
 			"chain_steps_applied", "chain_steps_refused_source_unresolvable", "chains_ending_in_refused_reload",
 			"chains_with_rotated_content_loaded_by_reload_of_unchanged_file", "chains_with_refused_reload_retried_after_providing_the_source"} {
 			if r.Counter(c) == 0 {
@@ -1166,6 +1212,8 @@ func TestCheck(t *testing.T) {
 	r.Set("configs_behavioural", len(bootable))
 	r.Set("reload_pairs_rule", "(A -> B): boot A through startServers, reload B through reloadConfig, run the complete table of the configuration in force. base = the 18 compiling configurations of global{-,g1,g1+g2} x routeA{-,a1} x routeB{-,b1} x admin{-,t1}. quick: all ordered pairs of base that differ in exactly one list (74); thorough: all 324 ordered pairs of base (identical reload included; the 250 pairs that are not in quick run the quick-size table); both tiers: reload from the all-old-tokens configuration (every list replaced) to each of the 18. Restart-required direction: for every ordered pair of different deployments (split/prefix/shared) boot A (quick: 2, thorough: all 18 of base, the 16 additional ones with the quick-size table), reload inverse(A) (every list differs) in the other deployment: the tree must reject it and A's table must be fully in force, B's tokens worthless")
 	r.Set("reload_chains_rule", "history = start state + 1..3 steps, each step followed by ONE production reload, then the complete table of what the reference has in force; every prefix of a history is a history. Tokens are file:/env: references, so their values live outside the Hookaidofile. focus list L with focus source s: route A [s] | route B [s] | global [g1,s] | admin [s] (context: global [g1], admin [t1], route A [a1], B on the global list). start: (L references s, content v1) | (not referenced, unresolvable) | (not referenced, v1). step: edit (L gains/loses s in the Hookaidofile) | edit-other (another route list gains/loses a member) | set:v1|v2|bad (content of s changes, Hookaidofile untouched) | reload (nothing changes). quick: file:/missing with focus A, global, admin and env:/unset with focus A, first two starts, every history of 1..2 steps in which the content of s changes only while the Hookaidofile references s (168 worlds); file empty | blank | directory and variable empty with focus A: the two one-step histories whose reload faces the unresolvable source (8 worlds). thorough: file:/missing and env:/unset: all four focus lists x three starts x every history of 1..2 steps; file:/missing, first two starts: plus every history of 3 steps in which the content of s changes only while referenced; file empty | blank | directory and variable empty: every such history of 1..2 steps in which the source is unresolvable at some point (1696 worlds). Reference: an applied reload puts the lists of the Hookaidofile as it is now with the source contents as they are now in force; a refused reload changes nothing (lists and resolved values of the last applied load stay); applied/refused is the tree's return value. Credential column: plus every earlier / refused / never-loaded content (other-token:rotated-out | replaced-by-reload | of-refused-config | never-loaded)")
+	r.Set("token_source_content_rule", "the CONTENT of a token source as a dimension (content_test.go), through the chain machinery: source kind env: | file: | raw: (content written into the Hookaidofile as a quoted string) x content without a usable token (\"\", \" \", \"\\t\", \"\\n\", \" \\n \", and the older ways: file missing / blank / directory, variable unset) or a usable token wrapped in blanks (\" tok\", \"tok \", \"tok\\n\", \"\\ttok\", \" tok \\n\") x list {route A, route B, global, admin}, standing alone ([s]) and next to a usable member ([x, s]) x when {at boot: the table right after start-up, or start-up refused | as a reload step: set while referenced, reference gained while blank | followed by a second step}. Reference from the statement: a content is usable iff something other than white space is left of it; a configuration declaring a member without a usable value is either refused (boot error / reload returns false: what was in force stays in force) or in force with that member worth nothing: a list all of whose declared members lack a usable value admits NOBODY and still replaces the global list for its route; a padded token is soft (docs do not say whether contents are trimmed): rows that would be allowed because of it are 'either', everything else is judged as always. Credential column plus blank spellings of 'no token'. quick: boot: kind x every blank x {A, global, admin} alone (+ beside for \" \" and \"\"); reload step: env: x {\" \", \"\\n\"} x three lists, file:/raw: on route A; padded: kind x padding on route A at boot (+ env: on global/admin, + rotation). thorough: the full product with 1-step histories, 2-step histories for env: x {\" \", \"\\n\"} x {A, global}, padded x four lists x {boot, rotation}")
+	r.Set("restart_refusal_rule", "reloads that are refused because they need a restart, combined with route and token edits (restart_test.go): boot configuration (g1 | a1 | - | t1) [thorough: + 3 more] x restart-only change {pull_api.max_batch, pull_api.grpc_listen [thorough: + default_lease_ttl, deliver URL], none = live control for renames} x edit {none | route of /ea renamed | route of /eb renamed | both | names exchanged | route A list flipped / member replaced / grown | route B list flipped | global member replaced / grown | admin flipped / member replaced | rename + member replaced | every list different}; after the reload the complete table of the configuration in force (the tree's return value says which; refused = the boot configuration) on Pull HTTP, Worker gRPC and Admin, candidate-only tokens in every credential column. Together with the other-deployment pairs of reload_pairs_rule these worlds are a family of their own in the world order (no longer the tail of the pairs)")
 	r.Set("rule", "nested loops, nothing sampled: token configuration (global × route A × route B × admin lists [× alphabet × deployment × token source in thorough], each compiled from DSL text and booted through the production startServers) × how it came into force (fresh boot | reload from another configuration applied | reload rejected, see reload_pairs_rule | a chain of 1..3 reloads over file:/env: token sources with content rotation and failing reloads, see reload_chains_rule) × history on the authorizer (none | right after a harmless request with a valid token to the same endpoint; deny rows of fresh-boot and reload-from-old worlds; thorough: every member of the allowlist as the valid token) × surface (Pull HTTP handler, Worker gRPC server over the in-memory listener, Admin HTTP handler) × endpoint spelling × operation/method × credential column (derived from every member of the effective allowlist plus every other token of the alphabet). Each row runs on the seeded store (queued/leased/dead/canceled message per route, lease ids known) and is compared with the reference allowlist rule; the full state dump (all message fields, stats, config file, management labels) must be identical after an unauthorised row. distinct = (surface, operation/method, credential class, reference verdict, strict/lenient spelling); trivial rows (compile-only) are keyed separately.")
 	r.Assume("docs define the credential as 'Authorization: Bearer <token>' only; scheme spelled in another case, extra blanks around scheme/token and several Authorization values are undefined: either outcome is accepted when at least one value carries a member of the effective allowlist (observed: HTTP authorizers look at the first value and want the exact scheme, the gRPC authorizer accepts any value and any scheme case) — recorded in undefined_by_docs_outcomes; when no value carries a member the row is a plain deny row")
 	r.Assume("401/Unauthenticated is demanded for the canonical spelling of a configured endpoint+operation (Pull: POST {endpoint}/{dequeue,ack,nack,extend}; Admin: the path×method pairs of docs/admin-api.md). For endpoints no route declares, deviating path spellings, unknown operations and non-listed methods only 'no effect, no data, no success answer' is demanded (the tree answers 401, 404 or 405 there; see lenient_case_status_codes)")
@@ -1174,7 +1222,8 @@ func TestCheck(t *testing.T) {
 	r.Assume("HTTP requests are parsed by net/http's http.ReadRequest, as the production http.Server would; the reference judges the Authorization values as delivered to the handler. TLS/mTLS listeners are not exercised (tokens are independent of the transport credentials)")
 	r.Assume("state = MemoryStore (fixed clock, no retention) + config file + management labels; runtime metrics counters are not queue state")
 	r.Assume("which configuration is in force after a reload is taken from the return value of the production reload (the tree's own statement); the docs' rule (token edits apply live, listener/prefix/shared-listener changes are rejected and the previous configuration stays active) is used for the vacuity guards: a rejected token-only reload ends the run as non-exhaustive, never as a violation. Reload through SIGHUP/--watch/management mutation all end in the same reloadConfig/applyCompiled; the management-mutation path is exercised only as authorised PUT/DELETE rows, not as a history before the table")
-	r.Assume("reload chains: the value of a file:/env: token reference is what the source holds when the configuration is loaded (start-up and every reload: docs/security.md secret references, docs/configuration.md 'Startup/reload'); a content change without a reload is not judged (no table is run between the change and the next reload). A reload that the tree applies although a declared token cannot be resolved is judged as 'that member has no value': a list all of whose declared members lack a value admits nobody and still replaces the global list (does not occur on the unchanged tree: chain_steps_applied_although_a_source_is_unresolvable = 0). vault: references are not exercised (no Vault in the sandbox)")
+	r.Assume("reload chains: the value of a file:/env: token reference is what the source holds when the configuration is loaded (start-up and every reload: docs/security.md secret references, docs/configuration.md 'Startup/reload'); a content change without a reload is not judged (no table is run between the change and the next reload). A reload that the tree applies although a declared token cannot be resolved is judged as 'that member has no value': a list all of whose declared members lack a value admits nobody and still replaces the global list (on the unchanged tree only for an env: variable that is set to white space: LoadRef hands the blanks on as the token, which no request can present — see token_source_content_rule). vault: references are not exercised (no Vault in the sandbox)")
+	r.Assume("token source contents: 'usable' = not empty after removing white space (the statement's 'bearer token'; 'requests without a token' are refused, so no member can stand for 'no token'); whether a padded content is trimmed is not documented, both readings are accepted (cfgSpec.Soft -> 'either' rows); a trailing newline of a token FILE is taken as trimmed (as chain_test.go always did). Contents with inner white space, NUL or non-ASCII bytes, {env.X}/{file.X} placeholders inside a token value and vault: are not enumerated")
 	r.Assume("overlapping requests: the sequential table cannot see state shared between in-flight requests of one authorizer; that is the free-running -race side pass (TestRace: valid and same-length/prefix/suffix/foreign invalid credentials presented concurrently to the same authorizer on the Pull HTTP, Worker gRPC and Admin surfaces, for authorizers built by start-up, by a reload and during a reload). It detects unsynchronised sharing (data race); a wrongly synchronised but still shared buffer would need the controlled scheduler and is not covered")
 	r.Finish()
 }
@@ -1211,6 +1260,12 @@ func replay(k *checker, path string) {
 	if cs.Cfg.Chain != nil {
 		w.redecide = true
 		if err := w.fresh(); err != nil {
+			if errors.Is(err, errBootRefused) { // this tree does not start with that configuration: nothing is in force
+				k.r.Add("evaluations", 1)
+				k.r.Add("content_boots_refused_no_usable_token", 1)
+				fmt.Printf("replayed: %v\n", err)
+				return
+			}
 			k.r.Infra("%v", err)
 			return
 		}
